@@ -33,6 +33,8 @@ type World struct {
 
 	stats map[string]int
 	reach map[string]bool
+	cfgOptional map[*types.Var]string
+	derefSum    map[*ssa.Function]map[int]bool
 }
 
 type FuncInfo struct {
